@@ -123,7 +123,7 @@ class NodeTr:
         return a
 
     def opname(self, attr, meth=None):
-        return "%s_%s%s" % (self.cls, attr.lstrip("_") if False else attr, ("_" + meth) if meth else "")
+        return "%s_%s%s" % (self.cls, attr, ("_" + meth) if meth else "")
 
     # ---- expressions ----------------------------------------------------------------------------------------------
     # ex() returns (coq term, type); reads of state / fallible operations / effects are appended to `binds` in
@@ -230,6 +230,8 @@ class NodeTr:
             return "(truthy_md %s)" % term
         if ty == "optnat":
             return "(truthy_optnat %s)" % term
+        if ty == ("list", "bool"):
+            return "(truthy_flags %s)" % term
         if isinstance(ty, tuple) and ty[0] == "list":
             return "(truthy_list %s)" % term
         if isinstance(ty, tuple) and ty[0] == "opt" and ty[1] == "md":
@@ -388,6 +390,8 @@ class NodeTr:
             tl, tyl = self.ex(gens[0].iter, env, binds)
             if tyl == MDS:
                 return ("(flatten_md %s)" % tl, "md")
+            if tyl == ("list", ("opt", "md")):
+                return (self.bind(binds, "lift (flatten_optmd %s)" % tl, True), "md")
             self.err("flattening comprehension over a %s" % (tyl,), e)
         # [f(v) for v in L]
         if len(gens) == 1 and isinstance(gens[0].target, ast.Name):
@@ -453,6 +457,8 @@ class NodeTr:
                 if len(e.args) != 1 or e.keywords:
                     self.err("%s with a count" % name, e)
                 t, ty = self.ex(e.args[0], env, binds)
+                if ty == ("opt", "md"):            # an entry of self.metadata: iterating None raises
+                    t, ty = self.bind(binds, "lift %s" % t, True), "md"
                 if ty != "md":
                     self.err("%s of a %s" % (name, ty), e)
                 self.bind(binds, "%s %s" % ("retain_refs" if name == "_retain_refs" else "release_refs", t), True, "u")
@@ -919,6 +925,10 @@ class NodeTr:
         if c == "false":
             out.append("%s(* the test is constant False under the stated assumptions *)" % ind)
             return out + self.go(list(s.orelse) + rest, self.narrow(s.test, env, False), ind)
+        seq = self.sequential_if(s, c, env, ind)
+        if seq is not None:
+            lines, env2 = seq
+            return out + lines + self.go(rest, env2, ind)
         out.append("%sif %s then (" % (ind, c))
         out += self.go(list(s.body) + rest, self.narrow(s.test, env, True), ind + "  ")
         out.append("%s) else (" % ind)
@@ -927,6 +937,40 @@ class NodeTr:
         out += self.go(list(s.orelse) + rest, self.narrow(s.test, env, False), ind + "  ")
         out.append("%s)" % ind)
         return out
+
+    def sequential_if(self, s, c, env, ind):
+        """An `if` without return whose branches (re)bind no local that holds data is one step; the statements after it
+        are not duplicated into its branches."""
+        if any(isinstance(n, ast.Return) for n in ast.walk(s)):
+            return None
+        ends = []
+
+        def tail(e):
+            ends.append(e)
+            return "ret tt"
+        self.tails.append(tail)
+        try:
+            b1 = self.go(list(s.body), self.narrow(s.test, env, True), ind + "    ")
+            b2 = self.go(list(s.orelse), self.narrow(s.test, env, False), ind + "    ")
+        finally:
+            self.tails.pop()
+        env2 = dict(env)
+        names = self.assigned_names(list(s.body) + list(s.orelse))
+        for e in ends:
+            for n in names:
+                if n in e and e[n][1] not in ("aw", "nil", "unit"):
+                    return None              # a data local is (re)bound in a branch: duplicate the continuation instead
+            for k, v in e.items():
+                if k.startswith("self."):
+                    continue
+                if v[1] in ("aw", "nil", "unit"):
+                    if k in env2 and env2[k][1] not in ("aw", "nil", "unit") and env2[k][0] != "VNone":
+                        return None
+                    env2[k] = v
+                elif k not in env or env[k] != v:
+                    return None              # a data local is bound in a branch: duplicate the continuation instead
+        lines = ["%sdo _ <- (if %s then (" % (ind, c)] + b1 + ["%s  ) else (" % ind] + b2 + ["%s  )) ;;" % ind]
+        return lines, env2
 
     def st_Try(self, s, rest, env, ind):
         """try: ... except Exception as e: logger.exception(e); raise [else: ...]  -- transparent"""
@@ -1202,8 +1246,26 @@ SCHEMAS["slice"] = dict(
            "upstreams": Attr("upstreams")},
     helpers={"_check_end": "stmt"})
 
+LATEST_ATTRS = {"last": field(VALS), "metadata": field(("list", ("opt", "md"))), "missing": field(("list", "bool")),
+                "upstreams": Attr("upstreams")}
+LATEST_OPS = {("last", "setitem"): Op(["nat", "val"], None, "wr"),
+              ("metadata", "getitem"): Op(["nat"], ("opt", "md"), "rd"),
+              ("metadata", "setitem"): Op(["nat", "md"], None, "wr"),
+              ("missing", "contains"): Op(["nat"], "bool", "rd"), ("missing", "remove"): Op(["nat"], None, "wr")}
+
+SCHEMAS["combine_latest"] = dict(
+    params=[("emit_on", "option (list nat)")], state="latest_st", store="(combine_latest_store s)", load="latest_load",
+    attrs=dict(LATEST_ATTRS, emit_on=param("emit_on")),
+    ops={**LATEST_OPS, ("emit_on", "contains"): Op(["nat"], "bool", "pure", pre=["emit_on"])})
+
+SCHEMAS["zip_latest"] = dict(
+    params=[], state="latest_st", store="(zip_latest_store s)", load="latest_load",
+    attrs=dict(LATEST_ATTRS, lossless=Attr("upstream0"), lossless_buffer=field(PAIRS)),
+    ops={**LATEST_OPS, ("lossless_buffer", "append"): Op([PAIR], None, "wr"),
+         ("lossless_buffer", "popleft"): Op([], PAIR, "wr_get")})
+
 ORDER = ["accumulate", "map", "filter", "starmap", "pluck", "union", "Stream", "flatten", "partition", "sliding_window",
-         "unique", "collect", "slice"]
+         "unique", "collect", "slice", "combine_latest", "zip_latest"]
 
 
 def generate_all(core):
